@@ -308,9 +308,13 @@ def any_spec_paths(m, v, t, path=()):
         for i, (key, x) in enumerate(v.items()):
             yield from any_spec_paths(m, x, t[2], path + (('v', i),))
     elif k == 'opt':
-        if v is not None:
+        # Optional[Any] / Union[X, Any] are not "positions typed Any": the
+        # tag still takes part in choosing the Union member (not judged)
+        if v is not None and t[1] not in ('any', 'untyped'):
             yield from any_spec_paths(m, v, t[1], path)
     elif k == 'union':
+        if 'any' in t[1:]:
+            return
         for mt in t[1:]:
             if mt not in ('any', 'buf') and V.conforms(m, v, mt) is None:
                 yield from any_spec_paths(m, v, mt, path)
